@@ -1506,6 +1506,11 @@ def diamond_cases():
         ("diamond-three-levels",
          "class Root { int r = 0; }\nclass M1 : Root;\nclass M2 : Root;\nclass Mixin { bit <D>mixed</D> = 1; }\n"
          "class J : M1, M2, Mixin;\nclass K : J { bit u = <U>mixed</U>; }\n"),
+        # the same walk in is_subclass_of_in: d must still be a Mixin for the initialiser to be compatible
+        ("diamond-subclass-cast",
+         "class Base { int b = 0; }\nclass Mixin { int mixed = 1; }\nclass Left : Base;\n"
+         "class Right : Base, Mixin;\nclass Diamond : Left, Right;\ndef <D>d</D> : Diamond;\n"
+         "class U { Mixin m = <U>d</U>; list<Mixin> l = [d]; }\n"),
         ("diamond-template-argument-default",
          "class Base { int b = 0; }\nclass Mixin { int <D>mixed</D> = 1; }\nclass Left : Base;\n"
          "class Right : Base, Mixin;\nclass P<int q> { int z = q; }\nclass Diamond : Left, Right, P<<U>mixed</U>>;\n"),
